@@ -261,6 +261,20 @@ def load_kwargs(kind, key):
 
 
 def run_impl(ctx, case, tmpdir):
+    """a fixed share of the cases is run from inside the scratch directory with BARE file names ("stats.npy", "stats" -
+    no directory part at all), the way a script saves next to itself"""
+    if (len(case["ops"]) + case["F"]) % 3 != 0:
+        return _run_impl(ctx, case, tmpdir)
+    ctx.count("bare_file_name")
+    cwd = os.getcwd()
+    os.chdir(tmpdir)
+    try:
+        return _run_impl(ctx, case, "")     # os.path.join("", name) == name
+    finally:
+        os.chdir(cwd)
+
+
+def _run_impl(ctx, case, tmpdir):
     """executes the sequence on the implementation; returns (result tokens, wire ops); runs the oracle"""
     p = post()
     kind, F, nv = case["kind"], case["F"], case["nv"]
